@@ -7,9 +7,9 @@ def check(tier, seed, only=None):
     p_ctx_common.run_ctx(rep, tier, [
         ("hash_pad", "leaf", "all", "all"),
         ("hash_init_digest", "leaf", "all", "all"),
-        ("submit", "tape", "reference_loose", "per_param"),
-        ("resubmit", "tape", "reference_loose", "per_param"),
-        ("flush", "tape", "reference_loose", "per_param"),
+        ("submit", "tape", "reference_loose", "reference"),
+        ("resubmit", "tape", "reference_loose", "reference"),
+        ("flush", "tape", "reference_loose", "reference"),
     ], only, extra=p_ctx_common.base_jobs(
         tier, ("init_digest", "init", "update", "final", "submit"),
         compress_quick=("sha256_base",),
